@@ -199,7 +199,12 @@ class Ctx:
         if role == 'nuts.init_chain':
             run = uniq(f(name='run', self_head='nuts::NUTSChain', container='inherent'))
             if run is not None:
-                r = uniq([c for c in self.local_callees(run) if type_head(c.get('self_ty') or '') == 'nuts::NUTSChain' and c.get('name') != 'step'])
+                cands = [c for c in self.local_callees(run) if type_head(c.get('self_ty') or '') == 'nuts::NUTSChain' and c.get('name') != 'step']
+                r = uniq(cands)
+                if r is None and len(cands) > 1:
+                    # several private methods (an extracted row store, ...): the initialisation is the one that reaches the free
+                    # step-size search function
+                    r = uniq([c for c in cands if any(c2.get('container') is None for c2 in self.local_callees(c))])
         elif role == 'nuts.fre':
             ic = self.helper('nuts.init_chain')
             if ic is not None:
